@@ -29,7 +29,7 @@ ATTRIB = [
     ("textx/model_params.py", "", ("C27",)),
     (LANG, "TextXVisitor.visit_str_match", ("C20", "C21", "C01", "C02")), (LANG, "TextXVisitor.visit_re_match", ("C20", "C01")), (LANG, "TextXVisitor.visit_repeat_modifiers", ("C01", "C21", "C02")),
     (LANG, "TextXVisitor.visit_obj_ref", ("C32", "C11")), (LANG, "TextXVisitor.visit_assignment", ("C01", "C02", "C32")), (LANG, "TextXVisitor.visit_textx_rule", ("C01", "C22")),
-    (LANG, "TextXVisitor.__init__", ("C21", "C20")), (LANG, "_compile_keyword", ("C20", "C21")),
+    (LANG, "TextXVisitor.__init__", ("C21", "C20")), (LANG, "_compile_keyword", ("C20", "C21")), (LANG, "RuleCrossRef", ("C32", "C11")), (LANG, "ClassCrossRef", ("C25",)),
     (RREL, "RRELPath", ("C11", "C12")), (RREL, "RRELVisitor", ("C11", "C12")),
 ]
 def _explicit(rel, q):
@@ -577,6 +577,18 @@ def r_intern(root):
             return None
         for fn in [n for n in ast.walk(t) if isinstance(n, ast.FunctionDef)]:
             fi = None
+            # a memoising decorator (functools.lru_cache / cache) on a function that returns a freshly built object of these kinds
+            memo_dec = [d for d in fn.decorator_list if any(isinstance(x, (ast.Name, ast.Attribute)) and (x.id if isinstance(x, ast.Name) else x.attr) in ("lru_cache", "cache", "cached_property") for x in ast.walk(d))]
+            if memo_dec:
+                fi = sem.info(fn)
+                for r_ in [x for x in own_nodes(fn) if isinstance(x, ast.Return) and x.value is not None]:
+                    k = is_ctor(fi, r_.value, r_)
+                    if k:
+                        inst += 1; q = qualname(fn); ps = set(props_for(rel, q, root)) | {"C19", "C16"}
+                        for p in sorted(ps):
+                            ob(p, p + ".S", rel, q, "@%s def %s" % (ast.unparse(memo_dec[0]), fn.name), False)
+                            out.append(Finding(p, p + ".S", rel, q, "@%s def %s" % (" ".join(ast.unparse(memo_dec[0]).split())[:40], fn.name), "a freshly built %s is returned by a memoised function: every later call with equal arguments gets the very same object; occurrences that must be independent objects (each gets its own rule name / suppress flag / packrat table) become one" % k, witness="the same keyword used twice in different roles"))
+                        break
             for n in own_nodes(fn):
                 hit = None
                 if isinstance(n, ast.Assign) and isinstance(n.value, ast.Call) and isinstance(n.value.func, ast.Attribute) and n.value.func.attr == "setdefault" and len(n.value.args) == 2:
